@@ -44,7 +44,8 @@ def check_prog(ctx, r, prog, n_rand):
         cmds = []
         for a in addrs:
             text = "{\"addr\":" + json_string(a) + "}"
-            cmds.append({"prog": pn, "op": f"remote:{t}", "addr": a, "text": text, "new_admin": "adm" + a[:5]})
+            flat = "{\"n\":7,\"addr\":" + json_string(a) + ",\"tail\":\"t\"}"
+            cmds.append({"prog": pn, "op": f"remote:{t}", "addr": a, "text": text, "flat_text": flat, "new_admin": "adm" + a[:5]})
         for a, o in zip(addrs, r.batch(cmds)):
             ctx.ev()
             exp = "{\"addr\":" + json_string(a) + "}"
@@ -61,6 +62,15 @@ def check_prog(ctx, r, prog, n_rand):
             dec = v["decoded"]
             if "ok" not in dec or dec["ok"]["as_ref"] != a or dec["ok"]["re"] != exp:
                 ctx.violate("decoding", f"{pn}: decoding {exp[:60]} does not give back a handle to the same address: {str(dec)[:120]}", d)
+            # embedded with serde(flatten) in an enclosing struct the handle is still just its `addr` member, both ways
+            flat = "{\"n\":7,\"addr\":" + json_string(a) + ",\"tail\":\"t\"}"
+            if v.get("flat_encoded") != flat:
+                ctx.violate("flatten-encoding", f"{pn}: a struct flattening Remote<{t}> encodes as {str(v.get('flat_encoded'))[:100]} expected {flat[:100]}", d)
+            fd = v.get("flat_decoded") or {}
+            if "ok" not in fd or fd["ok"] != {"as_ref": a, "n": 7, "tail": "t"}:
+                ctx.violate("flatten-decoding", f"{pn}: a struct flattening Remote<{t}> does not decode from {flat[:80]}: {str(fd)[:120]}", d)
+            else:
+                ctx.count("flattened_round_trips")
             if v["schema_name"] != "Remote":
                 ctx.violate("schema-name", f"{pn}: schema name of Remote<{t}> is {v['schema_name']}", d)
             if v["update_admin"] != {"update_admin": {"contract_addr": a, "admin": "adm" + a[:5]}} or v["clear_admin"] != {"clear_admin": {"contract_addr": a}}:
